@@ -4,7 +4,7 @@ from checks import asm_common as A
 
 UNITS = ['Opcodes', 'Codec', 'Asm']
 MODELS = ['theories/Cases.vo', 'theories/AsmModel.vo', 'theories/AsmSpec.vo']
-PROOFS = ['theories/AsmProofs.v', 'theories/AsmEncode.v', 'theories/CodecProofs.v']
+PROOFS = ['theories/AsmProofs.v', 'theories/AsmEncode.v', 'theories/CodecProofs.v', 'theories/NumText.v', 'theories/TextParse.v', 'theories/GenText.v', 'theories/AsmText.v']
 
 EXTRA = '''
 From RbpfV Require Import AsmSpec.
@@ -96,7 +96,7 @@ def run(chk):
     chk.cov['trusted_base'] = ['Coq 8.16.1 kernel + vm_compute', 'no axioms', 'translator tools/rs2v (units Asm, Codec, Opcodes)',
                                'theories/AsmSpec.v (mnemonic table, shapes, ranges)', 'theories/AsmParser.v + AsmModel.v glue: hand models tied by the correspondence',
                                'the generator\'s own text -> fields -> bytes computation (independent expectation)', 'harness/']
-    chk.assumptions = ['the step text -> (mnemonic, operand values) is the hand-modelled parser: theorems C13_* start from its result; number spellings and '
-                       'whitespace are covered by the correspondence and the independent expectation, not by a theorem about the grammar']
+    chk.assumptions = ['the parser is the hand model AsmParser.v (tie B); theorem C13_text covers the documented syntax with ASCII white space; a mnemonic glued '
+                       'to an operand that starts with a sign or bracket (`ja+5`) and non-ASCII white space are outside the grammar of the theorem (evaluated)']
     chk.cov['explanation'] = ('theorems C13_instruction / C13_program: regenerated instruction map + encode + insn + lddw split = specified denotation for every '
                               'mnemonic string and operand list, errors exactly where the specification has none; correspondence on spelled text')
